@@ -397,7 +397,7 @@ func checkAll(c Case) (fails []*h.Failure) {
 		return &h.Failure{Kind: kind, Detail: detail, Src: c.Src, Case: c, Callsite: "svg"}
 	}
 	initBaseline()
-	done := h.WatchFail(c.Src, 60*time.Second, mk("hang", "drawing the history and writing the SVG did not terminate within 60 s"))
+	done := h.WatchFail(c.Src, 180*time.Second, mk("hang", "drawing the history and writing the SVG did not terminate within 180 s"))
 	b, out := runSVG(c.Src)
 	done()
 	if out.Class != "ok" {
